@@ -53,6 +53,7 @@ func c04(r *core.Run) {
 	r.Rule("C04/R3", "each recipient gets its own percentage: POL amount ⊵ Param(PolRatio) ∧ ⋫ Param(ReferralCommission); referrer and fee-collector amounts ⊵ Param(ReferralCommission) ∧ ⋫ Param(PolRatio)")
 	r.Rule("C04/R4", "closed recipient set: every bank call of the unit is one of {debit from signer, new gauge, POL account, referrer named by msg.Referral, fee collector}")
 	r.Rule("C04/R5", "failure debits nothing: every bank error propagates to a failing return")
+	r.Rule("C04/R8", "every cut is computed from the payment as finally debited: no re-assignment of the payment lies on a path between a cut's computation and its transfer")
 	r.Rule("C04/R7", "success implies the money moved: every committing return of a plan purchase has debited the payer, created the gauge and written the plan record")
 	r.Rule("C04/R6", "referral gate: the referrer payout is on committing paths only behind a successful resolution of msg.Referral and behind Eq(resolved referral, signer)=false (directly or through a boolean flag set only there)")
 	hs, err := p.Handlers()
@@ -196,6 +197,39 @@ func c04(r *core.Run) {
 				}
 			}
 		}
+		// ---- R8 no cut is computed from an outdated payment: between the computation of a cut and its transfer the
+		// payment value (the coin that is debited) is not re-assigned on any path
+		if dc := debitCoin(debit); dc != nil {
+			var defs []ssa.Instruction
+			var leaves []ssa.Value
+			phiLeaves(dc, map[ssa.Value]bool{}, &leaves)
+			for _, lf := range leaves {
+				if in, ok := lf.(ssa.Instruction); ok {
+					defs = append(defs, in)
+				}
+			}
+			for _, sx := range sites {
+				if sx.class == "debit" || sx.class == "unknown" {
+					continue
+				}
+				var amtLeaves []ssa.Value
+				phiLeaves(sx.bo.Args[len(sx.bo.Args)-1], map[ssa.Value]bool{}, &amtLeaves)
+				stale := ""
+				for _, al := range amtLeaves {
+					for _, use := range coinUses(al) {
+						for _, d := range defs {
+							if d == use.def {
+								continue
+							}
+							if d.Parent() == use.at.Parent() && mayReachInstr(use.at, d) && mayReachInstr(d, sx.bo.Instr) {
+								stale = p.InstrPos(use.at) + " (payment re-assigned at " + p.InstrPos(d) + ")"
+							}
+						}
+					}
+				}
+				r.Check(stale == "", "C04/R8", fmt.Sprintf("%s:cut-from-current-payment:%s", sp.key, sx.class), p.InstrPos(sx.bo.Instr), "the cut is computed after the last assignment of the payment on every path", "the "+sx.class+" amount is computed from the payment at "+stale+": on that path the transfer uses a share of an outdated amount, so credits no longer add up to the debit")
+			}
+		}
 		errorsPropagate(r, "C04/R5", h)
 		// ---- R7 success implies the money moved: debit and gauge funding on every committing path of the paying branch
 		if sp.key == "storage.MsgBuyStorage" {
@@ -287,4 +321,130 @@ func c04(r *core.Run) {
 func isCtxArg(v ssa.Value) bool {
 	s := v.Type().String()
 	return strings.HasSuffix(s, "types.Context") || s == "context.Context"
+}
+
+// debitCoin: the sdk.Coin value inside NewCoins(...) of the debit.
+func debitCoin(debit *core.BankOp) ssa.Value {
+	c, ok := debit.Args[2].(*ssa.Call)
+	if !ok || !strings.HasSuffix(core.CalleeFullName(c), "types.NewCoins") {
+		return nil
+	}
+	va := core.VarArgs(c.Call.Args[0])
+	if len(va) != 1 || va[0] == nil {
+		return nil
+	}
+	return va[0]
+}
+
+type coinUse struct {
+	def ssa.Instruction // the definition of the coin value used
+	at  ssa.Instruction // where it is used
+}
+
+// coinUses walks the computation of an amount backwards and returns the uses of values of type sdk.Coin
+// (field reads of a coin, coins passed to helper functions).
+func coinUses(v ssa.Value) []coinUse {
+	var out []coinUse
+	seen := map[ssa.Value]bool{}
+	isCoin := func(x ssa.Value) bool { return strings.HasSuffix(x.Type().String(), "cosmos-sdk/types.Coin") }
+	var walk func(x ssa.Value, depth int)
+	note := func(coin ssa.Value, at ssa.Instruction) {
+		var leaves []ssa.Value
+		phiLeaves(coin, map[ssa.Value]bool{}, &leaves)
+		for _, lf := range leaves {
+			if in, ok := lf.(ssa.Instruction); ok {
+				out = append(out, coinUse{in, at})
+			}
+		}
+	}
+	walk = func(x ssa.Value, depth int) {
+		if x == nil || seen[x] || depth > 12 {
+			return
+		}
+		seen[x] = true
+		switch y := x.(type) {
+		case *ssa.Field:
+			if isCoin(y.X) {
+				note(y.X, y)
+				return
+			}
+			walk(y.X, depth+1)
+		case *ssa.Call:
+			for _, a := range y.Call.Args {
+				if isCoin(a) && len(y.Call.Args) > 0 && y.Call.StaticCallee() != nil && y.Call.StaticCallee().Blocks != nil {
+					note(a, y)
+					continue
+				}
+				walk(a, depth+1)
+			}
+			if y.Call.IsInvoke() {
+				walk(y.Call.Value, depth+1)
+			}
+		case *ssa.Slice:
+			if al, ok := y.X.(*ssa.Alloc); ok {
+				for _, el := range core.VarArgs(y) {
+					walk(el, depth+1)
+				}
+				_ = al
+			} else {
+				walk(y.X, depth+1)
+			}
+		case *ssa.Extract:
+			walk(y.Tuple, depth+1)
+		case *ssa.BinOp:
+			walk(y.X, depth+1)
+			walk(y.Y, depth+1)
+		case *ssa.Phi:
+			for _, e := range y.Edges {
+				walk(e, depth+1)
+			}
+		case *ssa.Convert:
+			walk(y.X, depth+1)
+		case *ssa.MakeInterface:
+			walk(y.X, depth+1)
+		case *ssa.UnOp:
+			walk(y.X, depth+1)
+		}
+	}
+	walk(v, 0)
+	return out
+}
+
+func mayReachInstr(a, b ssa.Instruction) bool {
+	if a.Parent() != b.Parent() {
+		return false
+	}
+	if a.Block() == b.Block() {
+		ia, ib := -1, -1
+		for i, in := range a.Block().Instrs {
+			if in == a {
+				ia = i
+			}
+			if in == b {
+				ib = i
+			}
+		}
+		if ia < ib {
+			return true
+		}
+	}
+	return core.PathExists(a.Parent(), nil, a, nil) && blockReaches(a.Block(), b.Block())
+}
+
+func blockReaches(from, to *ssa.BasicBlock) bool {
+	seen := map[*ssa.BasicBlock]bool{}
+	stack := append([]*ssa.BasicBlock{}, from.Succs...)
+	for len(stack) > 0 {
+		b := stack[len(stack)-1]
+		stack = stack[:len(stack)-1]
+		if seen[b] {
+			continue
+		}
+		seen[b] = true
+		if b == to {
+			return true
+		}
+		stack = append(stack, b.Succs...)
+	}
+	return false
 }
